@@ -486,6 +486,31 @@ def run_real(steps, desc, rows, validate=False):
         return {'err': classify_exc(e), 'exc': repr(e)[:300]}
 
 
+# processors that treat every resource on its own: the order in which a consumer reads the resources cannot matter
+INDEPENDENT = {'filter_rows', 'deduplicate', 'unpivot', 'delete_fields', 'select_fields', 'rename_fields', 'add_field',
+               'find_replace', 'add_computed_field', 'set_primary_key', 'update_resource'}
+
+
+def run_interleaved(steps, desc, rows):
+    """the same flow consumed through datastream(): every resource is requested before any row is read, then the rows
+    are read round-robin (one row of each resource in turn)"""
+    try:
+        with quiet():
+            ds = Flow(canon.pkg_source(desc, rows), *steps).datastream()
+            iters = [iter(r) for r in ds.res_iter]
+            out = [[] for _ in iters]
+            live = list(range(len(iters)))
+            while live:
+                for i in list(live):
+                    try:
+                        out[i].append(next(iters[i]))
+                    except StopIteration:
+                        live.remove(i)
+        return {'ok': canon.enc_pkg(ds.dp.descriptor, out)}
+    except Exception as e:  # noqa
+        return {'err': classify_exc(e), 'exc': repr(e)[:300]}
+
+
 def model_op(proc, a, desc, rows):
     p = PROCS[proc]
     if proc in ('find_replace', 'add_computed_field'):
